@@ -12,7 +12,7 @@ MC = "model_checking"
 T = {
     "C01": (MC, "TLC model checking of PegMachine vs PegDenot + replay of every behaviour in the real parsers",
             "TLC checks on every state of the small-step machine (one action per code template) that it conforms to the reference PEG semantics, never re-enters a rule at the same offset and that closures progress; every explored behaviour (grammar x input) is then replayed on the parser the real generator emits for that grammar and acceptance / consumed length compared. Exhaustive within the bound on both sides.",
-            "small-scope hypothesis (expression depth <= 2-3, input length <= 3-4); PegDenot is the reading of doc/syntax.md; rustc and the harness's Debug reader are trusted", "4 C01"),
+            "small-scope hypothesis (enumerated operator / terminal families, random deep grammars seeded by VERIF_SEED, inputs exhaustive to length 3-4 plus seeded and grammar-directed longer ones); PegDenot is the reading of doc/syntax.md; rustc and the harness's Debug reader are trusted", "0a, 4 C01"),
     "C02": (MC, "TLC (TreeExact, CountSound) + replay into real parsers, trees compared through derive(Debug)",
             "The machine's frame discipline (what each failing construct discards) is checked by TLC against the reference semantics for every field-plumbing shape; the same cases run on the real generated parsers and the canonical trees are compared.", "Debug rendering is the observation channel; bounded shapes and inputs", "4 C02"),
     "C03": (MC, "TLC evaluation of TypeShapes (type table from the documented mapping; ArityMapping: implemented lattice = documented counts) + rustc on exact-type assertions against the real generated code",
@@ -30,7 +30,7 @@ T = {
     "C09": (MC, "TLC TreeExact with ranges + RangesNest on real trees",
             "Ranges are part of the values TLC compares; on the real trees exact equality with the spec's ranges, nesting, ordering and string = slice are evaluated.", "PegPosition::position() glue is exercised only through Debug of the position field", "4 C09"),
     "C10": (MC, "TLC FurthestFail/RealFailure/NoSentinel with ghost attempt sets + real error vs real attempts (hook H2)",
-            "The machine threads the furthest-failure register exactly like ParseState; ghost attempt sets judge it in every failing behaviour. On the real code the reported position/detail is judged against the attempts recorded by H2.", "lookahead membership of an attempt is taken from the specification's run of the same case", "4 C10"),
+            "The machine threads the furthest-failure register exactly like ParseState; ghost attempt sets judge it in every failing behaviour. On the real code the reported position/detail is judged against the attempts recorded by H2.", "which attempts count (outside lookaheads, or handed out by a failing positive lookahead) is taken from the specification's run of the same case; FurthestFail is exact; the lattice lemma is also proved with TLAPS (spec/proofs, thorough tier)", "0a, 4 C10"),
     "C11": (MC, "TLC scanner machine vs the property's definition, every (text, position) replayed into PrettyParseError::from_parse_error",
             "A scanner machine (offset, line, column, line start) is model-checked against the property's own definition on every text and boundary position up to the bound; TLC's enumeration is turned into one implementation test per final state (location line, echoed line, caret column; with/without file name; colours off/on), plus seeded long random texts.", "Display output is parsed by the harness; trailing whitespace of the echoed line is trimmed by the renderer and ignored", "4 C11"),
     "C12": (MC, "TLC running PegMachine on grammar.ebnf itself (Meta, obtained by an independent reader) over laid-out grammar texts; trees compared with the real front end and the source AST; layout / escape families replayed behaviourally",
@@ -44,7 +44,7 @@ T = {
     "C17": (MC, "three bootstrap stages built for real and both front ends run on text corpora; the observation sequence validated by TLC against Bootstrap.tla",
             "Stage 1 is generated by the tree's generator from grammar.ebnf, a generator is built around it in a scratch copy and stage 2 generated; TLC accepts the recorded observations iff shipped = stage 1 = stage 2 (header aside) and every text (valid, invalid, mutated, all repository grammars) is read to the same Debug tree or the same error by the shipped and the regenerated front end. That both front ends denote what grammar.ebnf says is C12's Meta run.", "thin trace specification (equality of digests); rustfmt normalises layout", "4 C17"),
     "C18": (MC, "TLC over all histories of the BuildScript protocol (intended and implementation-shaped) + replay of every history against the real Compile",
-            "The file protocol {edit grammar, change prefix, delete destination, run} is model-checked for Fresh / Untouched / FailSafe in its intended form; the implementation-shaped form (run_on_single_file line by line) may deviate only in the two recorded findings (TLC must still find the flaw); every TLC history is replayed against the real Compile in a scratch directory (file / explicit destination / directory mode, formatting off and on) and the predicates are evaluated on the real files after every run.", "expected bytes come from a fresh library compilation; directory mode replayed with one grammar file; two known findings (known_findings.json)", "4 C18"),
+            "The file protocol {edit grammar, change prefix, delete destination, run} is model-checked for Fresh / Untouched / FailSafe in its intended form; the implementation-shaped form (run_on_single_file line by line) may deviate only in the two recorded findings (TLC must still find the flaw); every TLC history is replayed against the real Compile in a scratch directory (file / explicit destination / directory mode, formatting off and on) and the predicates are evaluated on the real files after every run.", "expected bytes come from a fresh library compilation; directory mode: one grammar file for the single-file histories plus the two-file model BuildScriptDir with every listing order; two known findings (known_findings.json)", "0a, 4 C18"),
     "C19": (MC, "TLC Balanced invariant + NestingMonitor trace validation of real ParseTracer callbacks; parse_with_trace vs parse",
             "depth is a natural number in the model, every exit path is a distinct action; the callback sequence of a recording ParseTracer is validated by TLC against NestingMonitor; results with RecTracer and the library's IndentedTracer must equal the plain result.", "stderr of IndentedTracer is discarded", "4 C19"),
     "C16": ("other", "byte comparison of the three routes' output across fresh processes, accepted by the Routes.tla trace specification (one inferred function F); peginate! compared behaviourally",
